@@ -228,6 +228,43 @@ static void own_register(vf_rng *r)
 	nown++;
 }
 
+/* register harness types of one kind until the registry refuses */
+static int fill_range(int kind)
+{
+	int n = 0;
+	while (nown < MAXOWN) {
+		const MPT_STRUCT(type_traits) *tp = 0;
+		const MPT_STRUCT(named_traits) *nt;
+		size_t size = 3 + (size_t) (n % 5);
+		int id, lo, hi;
+		switch (kind) {
+		case KBasic: vf_at("mpt_type_basic_add"); id = mpt_type_basic_add(size); break;
+		case KGeneric: {
+			MPT_STRUCT(type_traits) tmp = MPT_TYPETRAIT_INIT(size);
+			memcpy(&own_traits[nown], &tmp, sizeof(tmp));
+			tp = &own_traits[nown];
+			vf_at("mpt_type_add");
+			id = mpt_type_add(tp);
+			break; }
+		case KIface: vf_at("mpt_type_interface_add"); nt = mpt_type_interface_add(0); id = nt ? (int) nt->type : -1; size = sizeof(void *); break;
+		default: vf_at("mpt_type_metatype_add"); nt = mpt_type_metatype_add(0); id = nt ? (int) nt->type : -1; size = sizeof(void *); break;
+		}
+		if (id <= 0) break;
+		range_of(kind, &lo, &hi);
+		VF_CHECK(id >= lo && id <= hi, "model:libtypes:id-outside-range", "harness registration of kind %s got 0x%x", kindname[kind], id);
+		check_unique("harness registration", id, -1);
+		own[nown].id = id; own[nown].kind = kind; own[nown].size = size; own[nown].traits = tp;
+		nown++; n++;
+	}
+	switch (kind) {
+	case KBasic: vf_count("range-filled:basic", 1); break;
+	case KGeneric: vf_count("range-filled:generic", 1); break;
+	case KIface: vf_count("range-filled:interface", 1); break;
+	default: vf_count("range-filled:metatype", 1);
+	}
+	return n;
+}
+
 uint64_t vf_cases(void) { return vf_thorough ? 6000 : 600; }
 
 void vf_case(uint64_t idx, vf_rng *r)
@@ -256,7 +293,20 @@ void vf_case(uint64_t idx, vf_rng *r)
 
 	vf_fp_u64(idx);
 	nops = vf_range(r, 30, 160);
-	fill = (idx % 9 == 8);   /* fill the generic range with harness types at some point: library registrations are refused then */
+	fill = (idx % 12 == 6);   /* fill the generic range with harness types at some point: library registrations are refused then */
+	/* ranges exhausted by the application before the library registers anything of its own:
+	 * every library registration is then an error or a fresh, unique id of the right size */
+	if (idx % 12 >= 7) {
+		int which = (int) (idx % 12) - 7;   /* 0..3 one range, 4 all four */
+		int pre = (int) vf_below(r, 3);     /* some library types may exist already */
+		while (pre-- > 0) { k = (int) vf_below(r, NLIB); call_lib(k); look_lib(k); }
+		if (which < 4) fill_range(which);
+		else { int o = (int) vf_below(r, 4), j; for (j = 0; j < 4; j++) fill_range((o + j) % 4); }
+		vf_fp_u64(0x9000 + (uint64_t) which);
+		for (k = 0; k < NLIB; k++) { int kk = (k + (int) (idx % NLIB)) % NLIB; call_lib(kk); stack_work(3, (uint8_t) k); look_lib(kk); }
+		for (i = 0; i < nown; i++) look_own(i);
+		vf_count("monitor:library-after-exhaustion", 1);
+	}
 	for (i = 0; i < nops; i++) {
 		uint32_t w = vf_below(r, 100);
 		if (w < 30) {
